@@ -21,6 +21,12 @@ func c07Features(cs *cvxCase, clause string) map[string]any {
 		case "path":
 			f["rewrite"] = cvxRewriteClass(r, cs.C.Path)
 			f["escapes"] = cvxEscapeClass(cs.C.Path)
+			if c07OptionNeedsEscape(r.Strip) || c07OptionNeedsEscape(r.Prepend) {
+				f["option_needs_escape"] = true
+			}
+		case "status":
+			f["answer"] = cs.Out.Resp
+			f["headers"] = cs.C.Hdrs
 		case "host":
 			f["hostopt"] = r.HostOpt
 		case "query":
@@ -44,7 +50,7 @@ func c07Describe(cs *cvxCase) string {
 		s += " (TLS)"
 	}
 	for _, r := range cs.C.Routes {
-		s += fmt.Sprintf(" | route %s strip=%s prepend=%s host=%s tq=%s", cvxJoin(r.Src), cvxJoin(r.Strip), cvxJoin(r.Prepend), r.HostOpt, cvxQuery(r.TQuery))
+		s += fmt.Sprintf(" | route %s strip=%s prepend=%s host=%s tq=%s", cvxOpt(r.Src), cvxOpt(r.Strip), cvxOpt(r.Prepend), r.HostOpt, cvxQuery(r.TQuery))
 	}
 	s += fmt.Sprintf(" | headers=%s body=%d chunked=%v", cs.C.Hdrs, cs.Att.ReqBody, cs.Att.ReqChunked)
 	if cs.Out.Kind == "upstream" {
@@ -63,6 +69,33 @@ func c07WantURI(cs *cvxCase) string {
 	return uri
 }
 
+func c07OptionNeedsEscape(toks []string) bool {
+	for _, t := range toks {
+		if t == "U+F6" || t == "^" {
+			return true
+		}
+	}
+	return false
+}
+
+// c07SamePathModOptionHex: the escapes fabio itself writes for the text of the prepend option may use
+// either case for their hex digits; everything that comes from the client must be byte-identical.
+func c07SamePathModOptionHex(cs *cvxCase, got string) bool {
+	r := &cs.C.Routes[0]
+	if len(r.Prepend) == 0 {
+		return false
+	}
+	k := len(r.Prepend)
+	if r.Prepend[0] != "/" {
+		k++
+	}
+	if k > len(cs.Up.Path) {
+		return false
+	}
+	prefix, rest := cvxJoin(cs.Up.Path[:k]), cvxJoin(cs.Up.Path[k:])
+	return len(got) == len(prefix)+len(rest) && strings.EqualFold(got[:len(prefix)], prefix) && got[len(prefix):] == rest
+}
+
 func c07WantHost(w *cvxWorld, cs *cvxCase) string {
 	switch cs.Up.Host {
 	case "req":
@@ -78,10 +111,16 @@ func c07Exec(w *cvxWorld, j *cvxJob) bool {
 	fail := func(clause, format string, a ...any) {
 		verifx.Fail(cs, c07Features(cs, clause), "%s\n  case: %s", fmt.Sprintf(format, a...), c07Describe(cs))
 	}
-	status, hdr := cvxAnswer(cs.Out.Resp)
+	interim, status, hdr := cvxAnswerScript(cs.Out.Resp)
 	if cs.Out.Kind == "upstream" {
-		w.plans.Store(j.id, &cvxPlan{Status: status, Hdr: hdr, Body: cs.Att.RespBody, Chunked: cs.Att.RespChunked})
+		w.plans.Store(j.id, &cvxPlan{Interim: interim, Status: status, Hdr: hdr, Body: cs.Att.RespBody, Chunked: cs.Att.RespChunked})
 		defer w.plans.Delete(j.id)
+	}
+	if cs.C.Hdrs == "expect" && cs.Att.ReqBody == 0 {
+		// Expect: 100-continue announces a body
+		att := *cs.Att
+		att.ReqBody = 1
+		cs.Att = &att
 	}
 	got, rid, err := w.doHTTP(cs, j.id)
 	if errors.Is(err, errCvxTruncated) {
@@ -127,7 +166,7 @@ func c07Exec(w *cvxWorld, j *cvxJob) bool {
 		if seen.RequestURI != wantURI {
 			gp, gq, _ := strings.Cut(seen.RequestURI, "?")
 			wp, wq, _ := strings.Cut(wantURI, "?")
-			if gp != wp {
+			if gp != wp && !c07SamePathModOptionHex(cs, gp) {
 				fail("path", "upstream saw request target %q, want %q", seen.RequestURI, wantURI)
 			}
 			if gq != wq {
@@ -144,6 +183,9 @@ func c07Exec(w *cvxWorld, j *cvxJob) bool {
 			sent[k] = append(sent[k], l.Vals...)
 		}
 		for k, vals := range sent {
+			if k == "Expect" {
+				continue // consumed or passed on by the HTTP machinery of either hop: not judged
+			}
 			if !cvxSameVals(seen.Header[k], vals) {
 				fail("req-header", "upstream saw %s: %q, the client sent %q", k, seen.Header[k], vals)
 			}
@@ -169,7 +211,7 @@ func c07Exec(w *cvxWorld, j *cvxJob) bool {
 			fail("resp-header", "Strict-Transport-Security: %s", msg)
 		}
 		r := &cs.C.Routes[0]
-		return cvxRewriteClass(r, cs.C.Path) != "none" || cvxEscapeClass(cs.C.Path) != "none" || r.HostOpt != "" || len(r.TQuery) > 0
+		return cvxRewriteClass(r, cs.C.Path) != "none" || cvxEscapeClass(cs.C.Path) != "none" || r.HostOpt != "" || len(r.TQuery) > 0 || len(interim) > 0 || cs.C.Hdrs == "expect"
 
 	default:
 		w.errorf("case %d: outcome %q is not one C07 replays", j.id, cs.Out.Kind)
